@@ -133,6 +133,12 @@ func scenario(p params, bounds []int) *vexp.Scenario {
 					case "watch-kill":
 						ctx.Watch(target)
 						ctx.Kill(target, false, "c15")
+					case "undecodable-tell":
+						ctx.Tell(target, &vcodec.UnreadableMsg{N: 7})
+					case "once-to-namesake":
+						// the receiver lives on the other system under the SAME path as the owner of the job
+						ns, _ := wa.Sys.CreateRef(addrB, "/caller")
+						ctx.Scheduler().Once(ns, time.Second, payload("once-ns"), vivid.WithSchedulerReference("ns"))
 					case "bad-tell":
 						ctx.Tell(target, &vcodec.ShortTagMsg{Tag: strings.Repeat("t", 300)})
 					case "tell":
@@ -174,6 +180,11 @@ func scenario(p params, bounds []int) *vexp.Scenario {
 						ctx.Scheduler().Loop(target, time.Second, payload("loop"), vivid.WithSchedulerReference("l"))
 					}
 				},
+				OnOther: func(a *vsys.Act, ctx vivid.ActorContext, m any) {
+					if s := text(m); s == "once-ns" {
+						callerSaw = append(callerSaw, "scheduled:"+s)
+					}
+				},
 				OnKilled: func(a *vsys.Act, ctx vivid.ActorContext, m *vivid.OnKilled) {
 					callerSaw = append(callerSaw, "OnKilled:"+m.Ref.GetAddress()+m.Ref.GetPath())
 				}})
@@ -187,6 +198,11 @@ func scenario(p params, bounds []int) *vexp.Scenario {
 						ctx.Watch(targetFromB)
 					case "unwatch":
 						ctx.Unwatch(targetFromB)
+					}
+				},
+				OnOther: func(a *vsys.Act, ctx vivid.ActorContext, m any) {
+					if s := text(m); s == "once-ns" {
+						callerSawB = append(callerSawB, "scheduled:"+s)
 					}
 				},
 				OnKilled: func(a *vsys.Act, ctx vivid.ActorContext, m *vivid.OnKilled) {
@@ -220,6 +236,10 @@ func scenario(p params, bounds []int) *vexp.Scenario {
 				do("bad-tell")
 				settle(time.Second)
 			}
+			if p.pre == "undecodable-tell" {
+				do("undecodable-tell")
+				settle(time.Second)
+			}
 			if p.pre == "reused-name" {
 				do("tell")
 				settle(time.Second)
@@ -236,6 +256,12 @@ func scenario(p params, bounds []int) *vexp.Scenario {
 				target, _ = wa.Sys.CreateRef(taddr, "/target")
 			}
 			switch p.op {
+			case "once-to-namesake":
+				do("once-to-namesake")
+				settle(3 * time.Second)
+				if strings.Join(callerSawB, ",") != "scheduled:once-ns" || len(callerSaw) != 0 {
+					x.Fail("scheduled-message-delivered", "Once to %s/caller scheduled by %s/caller (same path, other system): the receiver saw %v, the owner itself saw %v", addrB, addrA, callerSawB, callerSaw)
+				}
 			case "watch-kill":
 				if p.pre == "first-contact" {
 					// another actor of the same system contacts the same remote system for the first time at this very moment
@@ -360,6 +386,9 @@ func scenario(p params, bounds []int) *vexp.Scenario {
 						if p.pre == "bad-tell" && strings.Contains(fmt.Sprintf("%+v", pb.Event), "ShortTagMsg") {
 							continue // the one message that cannot be encoded
 						}
+						if p.pre == "undecodable-tell" && strings.Contains(fmt.Sprintf("%+v", pb.Event), "nreadable") {
+							continue // the one message the receiving side cannot decode
+						}
 						x.Fail("no-codec-failure", "%s: %v", pb.Type, pb.Event)
 					}
 				}
@@ -410,6 +439,11 @@ func build(tier string) []*vexp.Scenario {
 	out = append(out, vexp.Split(8, func() *vexp.Scenario {
 		return scenario(params{op: "watch-kill", remote: true, pre: "first-contact"}, []int{0, 1, 2})
 	})...)
+	out = append(out, scenario(params{op: "once-to-namesake", remote: true}, []int{0}))
+	// the same operations right after one message that the receiving side could not decode
+	for _, op := range []string{"tell", "ask", "kill", "watch", "ping", "pipe-remote-forwarder"} {
+		out = append(out, scenario(params{op: op, remote: true, pre: "undecodable-tell"}, []int{0}))
+	}
 	// the same operations right after one message was (legitimately) rejected by its writer
 	for _, op := range []string{"tell", "ask", "kill", "watch", "ping", "pipe-ok", "pipe-remote-forwarder", "once"} {
 		for _, remote := range []bool{false, true} {
